@@ -107,6 +107,9 @@ def simulators():
         'fast_nonMarkov_SIR(fixed period, events at tmax)': ('SIR', 0, lambda fd: EoN.fast_nonMarkov_SIR(G, trans_time_fxn=lambda u, v: 1.0, rec_time_fxn=lambda u: 2.0, initial_infecteds=[0], tmin=0, tmax=3.0, return_full_data=fd)),
         'fast_SIS(negative tmin)': ('SIS', -6, lambda fd: EoN.fast_SIS(G, 1.0, 1.0, initial_infecteds=[0, 2], tmin=-6, tmax=-3, return_full_data=fd)),
         'Gillespie_SIR': ('SIR', tm, lambda fd: EoN.Gillespie_SIR(G, 1.0, 1.0, initial_infecteds=[0, 2], initial_recovereds=[5], tmin=tm, return_full_data=fd)),
+        'Gillespie_SIR(recovered nodes next to the seeds)': ('SIR', tm, lambda fd: EoN.Gillespie_SIR(G, 2.0, 0.5, initial_infecteds=[0, 2], initial_recovereds=[1, 4], tmin=tm, return_full_data=fd)),
+        'fast_SIR(recovered nodes next to the seeds)': ('SIR', tm, lambda fd: EoN.fast_SIR(G, 2.0, 0.5, initial_infecteds=[0, 2], initial_recovereds=[1, 4], tmin=tm, return_full_data=fd)),
+        'discrete_SIR(recovered node next to the seed)': ('SIR', 2, lambda fd: EoN.discrete_SIR(G, test_transmission=lambda u, v: True, initial_infecteds=[0], initial_recovereds=[1], tmin=2, return_full_data=fd)),
         'Gillespie_SIR(weighted)': ('SIR', tm, lambda fd: EoN.Gillespie_SIR(G, 1.0, 1.0, rho=0.3, tmin=tm, transmission_weight='w', recovery_weight='r', return_full_data=fd)),
         'fast_SIS': ('SIS', tm, lambda fd: EoN.fast_SIS(G, 1.0, 1.0, initial_infecteds=[0, 2], tmin=tm, tmax=tm + 3, return_full_data=fd)),
         'fast_nonMarkov_SIS': ('SIS', tm, lambda fd: EoN.fast_nonMarkov_SIS(G, trans_time_fxn=tts, rec_time_fxn=rt, trans_time_args=(1.0,), rec_time_args=(1.0,), initial_infecteds=[1], tmin=tm, tmax=tm + 3, return_full_data=fd)),
